@@ -506,7 +506,46 @@ func runC16Delegate(c *Ctx) {
 	c.Rule("C16-DELEGATE", "every walker's getValidFn returns exactly what (*validCommon).getValidFn returns for the same name, on every path", 4)
 	shared := p.Method("valid", "validCommon", "getValidFn")
 	if shared == nil {
-		c.Unk("C16-DELEGATE", "(*valid.validCommon).getValidFn", "anchor", token.NoPos, "shared resolver not found")
+		// the shared resolver was inlined into the walkers' own getValidFn: each of them then has to look
+		// the given name up in the per-call table and in the global table itself (the order of the two
+		// is judged on the walkers' paths by C16-LOOKUP)
+		n := 0
+		for _, fn := range p.Funcs {
+			if fn.Name() != "getValidFn" || fn.Signature.Recv() == nil || fn.Pkg != p.Pkg("valid") || len(fn.Params) < 2 {
+				continue
+			}
+			n++
+			c.Funcs[fnName(fn)] = true
+			c.Sites++
+			local, global := false, false
+			for _, b := range fn.Blocks {
+				for _, ins := range b.Instrs {
+					lk, ok := ins.(*ssa.Lookup)
+					if !ok || lk.Index != ssa.Value(fn.Params[1]) {
+						continue
+					}
+					if ld, ok := lk.X.(*ssa.UnOp); ok {
+						if _, isG := ld.X.(*ssa.Global); isG {
+							global = true
+						}
+						if fa, isF := ld.X.(*ssa.FieldAddr); isF && fieldAddrName(fa) == "validFn" {
+							local = true
+						}
+					}
+					if ct, ok := lk.X.(*ssa.ChangeType); ok {
+						if ld, ok := ct.X.(*ssa.UnOp); ok {
+							if _, isG := ld.X.(*ssa.Global); isG {
+								global = true
+							}
+						}
+					}
+				}
+			}
+			c.Check(local && global, "C16-DELEGATE", fnName(fn), "delegates", fn.Pos(), "no shared resolver: looks the given name up in the per-call and in the global table itself", "neither delegates to a shared resolver nor looks the given name up in both the per-call and the global function table")
+		}
+		if n == 0 {
+			c.Unk("C16-DELEGATE", "(*valid.validCommon).getValidFn", "anchor", token.NoPos, "no resolver found")
+		}
 		return
 	}
 	for _, fn := range p.Funcs {
